@@ -236,6 +236,14 @@ func (r *Run) sink(src any, ev string, kv ...int) {
 		r.Rec.Emit(ev, "ep", ep, "n", kv[0])
 	case "pongTimeout":
 		r.Rec.Emit(ev, "ep", ep, "inner", kv[0])
+	case "hsTimeout":
+		// the handshake timeout in force when the wait ends (the loops read
+		// it right before they start to wait; nothing changes it meanwhile)
+		to := -1
+		if tm, ok := src.(*gbn.TimeoutManager); ok {
+			to = int(tm.GetHandshakeTimeout() / time.Millisecond)
+		}
+		r.Rec.Emit(ev, "ep", ep, "to", to)
 	default:
 		r.Rec.Emit(ev, "ep", ep)
 	}
